@@ -144,3 +144,74 @@ Proof.
            rewrite map_nth. apply incl_refl. }
   cbn. unfold rows_of. cbn [recs init]. rewrite map_map. reflexivity.
 Qed.
+
+(** * The end-of-poll verdicts, one by one *)
+Lemma end_44 c s s1 n : X c s -> R2 nobody s -> X c s1 -> SRr s s1 ->
+  forallb (fun x => match row_status (rows_of s) x with
+                    | FINISHED => state_eqb (row_status (rows_of s1) x) FINISHED
+                    | DRYRUN => state_eqb (row_status (rows_of s1) x) DRYRUN
+                    | FAILED | CANCELLED => fc_row (row_status (rows_of s1) x)
+                    | _ => true end) n = true.
+Proof.
+  intros [A1 A3] Rs [B1 B3] S. apply forallb_forall. intros x _. rewrite !row_status_rows.
+  assert (FD : stat s x = FINISHED \/ stat s x = DRYRUN -> stat s1 x = stat s x).
+  { intros H. pose proof (A1 x H) as Hc. rewrite (A3 x Hc). apply B3. apply (rr_comp _ _ S). exact Hc. }
+  assert (FC : fc_row (stat s x) = true -> fc_row (stat s1 x) = true).
+  { intros H. destruct (Rs x H) as [Hf|[Hf|[]]]; apply (rr_row _ _ S); auto. }
+  destruct (stat s x) eqn:E; try reflexivity.
+  - rewrite FD by auto. reflexivity.
+  - apply FC. reflexivity.
+  - apply FC. reflexivity.
+  - rewrite FD by auto. reflexivity.
+Qed.
+
+Lemma end_46 c s1 L n : X c s1 -> JS (dry c) none s1 L ->
+  forallb (fun x => impb (mem x (succ L)) (state_eqb (row_status (rows_of s1) x) FINISHED)) n = true.
+Proof.
+  intros [B1 B3] [C1 C2 C3 C4]. apply forallb_forall. intros x _. rewrite row_status_rows.
+  destruct (mem x (succ L)) eqn:E; [|reflexivity]. cbn. apply mem_In in E.
+  destruct (dry c) eqn:Hd; [rewrite C4 in E by reflexivity; destruct E|].
+  destruct (C2 x E) as [H|[]]. rewrite (B3 x H). unfold fin_of. rewrite Hd. reflexivity.
+Qed.
+
+Lemma end_47 c s1 L n : X c s1 -> JS (dry c) none s1 L ->
+  forallb (fun x => impb (state_eqb (row_status (rows_of s1) x) FINISHED) (mem x (succ L))) n = true.
+Proof.
+  intros [B1 B3] [C1 C2 C3 C4]. apply forallb_forall. intros x _. rewrite row_status_rows.
+  destruct (state_eqb (stat s1 x) FINISHED) eqn:E; [|reflexivity]. cbn. apply state_eqb_eq in E.
+  assert (Hc : In x (completed s1)) by (apply B1; auto).
+  apply mem_In. apply C1; auto.
+  destruct (dry c) eqn:Hd; auto. rewrite (B3 x Hc) in E. unfold fin_of in E. rewrite Hd in E. discriminate.
+Qed.
+
+Lemma end_42 g s1 L stat : Inv g s1 -> JL none s1 L -> (stat = SABORT \/ stat = completion_gen g s1) ->
+  negb (sstatus_eqb stat SFINISHED || sstatus_eqb stat SFAILURE || sstatus_eqb stat SCANCELLED)
+  || is_nil (live L) = true.
+Proof.
+  intros I Jl [->| ->]; [reflexivity|].
+  destruct (completion_gen g s1) eqn:E; try reflexivity;
+    rewrite (completion_final g s1 L I Jl) by (rewrite E; discriminate); apply orb_true_r.
+Qed.
+
+Lemma end_72 g s1 L stat : JL none s1 L -> (stat = SABORT \/ stat = completion_gen g s1) ->
+  negb (cseen L && is_nil (live L)) || sstatus_eqb stat SABORT || sstatus_eqb stat SCANCELLED = true.
+Proof.
+  intros Jl [->| ->]; [apply orb_true_iff; left; apply orb_true_r|].
+  destruct (cseen L) eqn:Hc; [|reflexivity]. destruct (live L) eqn:Hl; [|reflexivity].
+  rewrite (completion_cancelled g s1 L Jl Hc Hl). reflexivity.
+Qed.
+
+Lemma end_31 c g p L0 s1 stat : F31 c g p L0 s1 stat ->
+  negb (throttle c =? 0) || sstatus_eqb stat SABORT || dry c ||
+  forallb (fun x => impb (subset (parents (attr g x)) (sstage (led c g p L0 s1)))
+                         (negb (state_eqb (row_status (rows_of s1) x) INITIALIZED))) (all_nodes g) = true.
+Proof.
+  intros F. destruct (throttle c =? 0) eqn:Ht; [|reflexivity]. apply Nat.eqb_eq in Ht.
+  destruct (sstatus_eqb stat SABORT) eqn:Ha; [reflexivity|]. destruct (dry c) eqn:Hd; [reflexivity|].
+  cbn [negb orb]. apply forallb_forall. intros x Hx. apply In_seq_lt in Hx. rewrite row_status_rows.
+  destruct (subset (parents (attr g x)) (sstage (led c g p L0 s1))) eqn:Hs; [|reflexivity]. cbn.
+  apply subset_incl in Hs.
+  assert (Hn : stat s1 x <> INITIALIZED).
+  { apply F; auto. intros ->. discriminate. }
+  destruct (stat s1 x); try reflexivity. contradiction.
+Qed.
